@@ -83,6 +83,7 @@ type goTr struct {
 	pkgName string
 	names   map[string]string // spec identifier -> Go expression
 	depth   int
+	inOld   bool // inside old(...): parameters name their entry copies (search harness)
 }
 
 var convNames = map[string]bool{"int": true, "int8": true, "int16": true, "int32": true, "int64": true, "uint": true, "uint8": true,
